@@ -1,6 +1,55 @@
 /-
   Sipsp.Proofs.NaSplit — property C09, the clause "multi-value headers are split only at commas outside quotes and
-  angle brackets", converse direction, for EVERY input (no grammar assumption, no size bound).
+  angle brackets; the value count … summarises all values": the CONVERSE direction (soundness), for EVERY input — no
+  grammar assumption on the text; any buffer, any offset, any capacity of the caller's array.  (The completeness
+  direction for texts of the grammar is `C09.contact_values` / `contact_count` / `comma_inside_uri` / `comma_inside_quotes`.)
+
+  "Top level" is the AUTOMATON'S OWN notion, made explicit as a 9-mode byte scanner (`NsMode`, `nsStep`, `nsModeAt`;
+  `NsTop b o j` = position `j` is at top level when the text is scanned from `o`; `NsTopComma`; `NsNoComma b o e` = no
+  top-level comma in `[o, e)`).  A double quote opens a quoted string only in the display-name / bare-URI part (`head`)
+  and in a parameter value (`pvl`); inside a quoted string a backslash protects the next byte; `<` opens the bracket
+  only in `head`; `>` closes it; `;` starts a parameter name, `=` a parameter value.  It differs from the naive reading
+  "outside double quotes and outside `<` … `>`" exactly here (tests in section J, each a concrete input):
+    (a) a `"` between `<` and `>` is an ordinary byte:           `<sip:"a>,b`  is split at the comma;
+    (b) a `"` after `>` and before the first `;` is ordinary:     `<a>"x,y"`   is split at the comma;
+    (c) a `<` after `>` is ordinary (no second bracket):          `<a><b,c>`   is split at the comma;
+    (d) a `"` inside a parameter NAME is ordinary:                `<a>;x"b,c"` is split at the comma;
+    (e) a `"` inside a bare URI / name token DOES open a string:  `s:a"b,c" <x>, d` is split only at the second comma.
+  The scanner is defined on all byte strings; on texts the automaton rejects it may say anything — the theorems only use
+  it up to the point the automaton reached.
+
+  Proved (no size limit on the buffer unless stated):
+  * (1) value level, `ns_value_more`: if `parseNameAddrPVal h b o {}` answers "more values" with offset `o'`, then `h` is
+    a kind with several values, `o < o'`, `b[o'-1] = ','`, that comma is at top level (`NsTop b o (o'-1)`) and NO
+    top-level comma occurs in `[o, o'-1)`: the value ends at the FIRST top-level comma.  `ns_value_ok`: on OK, `o'` is
+    the offset after a line end not followed by SP / HT (`NsEol`) and — kinds with several values — no top-level comma
+    occurs in `[o, o')`.  `ns_parse`: the same for any object whose state is the initial one.
+    Proof: loop invariant `NsInv` (the scanner mode of the automaton state, `nsOf`, is the mode of the scan at the current
+    offset; no top-level comma so far), one lemma per `case` group (`ns_stepA` … `ns_stepVE`), lifted through `runLoop_inv`.
+  * (3) `ns_single_never_more`: for a kind with a single value (`multipleValsOk h = false`: From, To, …) the verdict is
+    never "more values" — any buffer, offset AND any object passed in (any state).
+  * (2) list level, `parseAllContactValues_segs` / `parseAllPAIValues_segs` (any object with clean unused slots whose
+    current slot is new — `CtClean`, `c.cur = {}`; `C09.new_contacts_ok`: a new object of any capacity qualifies):
+    whenever the call answers OK with offset `o'` there is a list of pieces `NsSegs h b o L o'`: every piece but the last
+    is closed by the first top-level comma after its start (the scan restarts after it), the last has no top-level comma
+    and is closed by the line end; the value of each piece is what the value parser reports at its start; the object is
+    `c.acceptAll` of these values in order (so `C09.contact_count`, `contact_stored`, `contact_max_expires`,
+    `contact_min_expires` apply).  `NsSegs.count`, `parseAllContactValues_count`, `parseAllPAIValues_count`: N grows by
+    exactly 1 + `nsCommaCount b o o'`, the number of top-level commas of the consumed text counted by an independent
+    scanner (`nsScanR`) — for every capacity.  PAI: no accepted value is `*`.
+  * spans (buffers ≤ 65,535 bytes): `ns_value_vend`: on "more values" `V` ends at or before the comma (it never
+    contains it); on OK it ends at or before a run of white space / line-end bytes reaching `o'`.  `ns_value_lead`
+    (kinds with several values): `V` starts at the first byte from `o` that is not SP / HT / CR / LF.  `NsSegs.vspans`
+    (`NsVSpans`), `NsSegs.leads`: the same for all pieces of a list, in order: start of piece ≤ V.Offs, V ends ≤ the
+    closing comma, pieces strictly ordered, `b[next start - 1] = ','`.
+  * `parseAllContactValues_new_converse`, `parseAllPAIValues_new_converse`: one call on a new object, all of the above in
+    one statement (N, stored values = values of the first `cap` pieces, max / min expires over ALL pieces).
+
+  NOT proved here: the resumed case (a value or list continued after "more bytes": the invariant is stated for every
+  automaton state, but the theorems are for one call); that `V` is trimmed at its END — it is not always: bytes after `>`
+  are skipped and not part of `V` (`<a> jk ,c` reports `<a>`), and after `;name=` + white space + `,` the white space is
+  part of `V` (`a:b;x= ,c` reports 7 bytes); `ns_value_lead` for single-valued kinds (false there: From / To skip
+  leading commas); any statement about texts on which ParseAllContactValues does not answer OK.
 -/
 import Sipsp.Proofs.NaNumRun
 import Sipsp.Proofs.HdrSound
@@ -77,7 +126,7 @@ theorem nsStep_lws {m : NsMode} {c : UInt8} (hm : m.plain = true) (hc : isLWSch 
     · exact Or.inr (Or.inr (Or.inr h))
   rcases hc' with rfl | rfl | rfl | rfl <;> cases m <;> first | rfl | cases hm
 
-theorem isLWSch_ne_comma {c : UInt8} (hc : isLWSch c = true) : c ≠ 44 := by
+theorem ns_isLWSch_ne_comma {c : UInt8} (hc : isLWSch c = true) : c ≠ 44 := by
   intro h; subst h; revert hc; decide
 
 /-- the scan has reached `i` in mode `m` and (for header kinds with several values) met no top-level comma so far -/
@@ -120,7 +169,7 @@ theorem NsAt.run {mv : Bool} {b : Buf} {o i : Nat} {m : NsMode} (h : NsAt mv b o
     rcases Nat.lt_or_ge i (n + 1) with hlt | hge
     · obtain ⟨c, hc, hl⟩ := hr n (by omega) (by omega)
       have h1 := ih (by omega) (fun k hk1 hk2 => hr k hk1 (by omega))
-      have h2 := h1.step hc (fun _ h44 => absurd h44 (isLWSch_ne_comma hl))
+      have h2 := h1.step hc (fun _ h44 => absurd h44 (ns_isLWSch_ne_comma hl))
       rw [nsStep_lws hm hl] at h2
       exact h2
     · have : i = n + 1 := by omega
@@ -1148,6 +1197,435 @@ theorem NsSegs.vspans {h : Nat} {b : Buf} {o o' : Nat} {L : List (Nat × PFromBo
     · show b[j + 1 - 1]? = some 44
       rw [e]; exact hj
 
+/-! ### H2. the reported value `V` of a piece starts at its first byte that is not white space -/
+
+/-- invariant: before the value has started only white space / line-end bytes were read; afterwards `V.Offs` stays at
+    the first other byte -/
+def NvInv (b : Buf) (o i : Nat) (pf : PFromBody) : Prop :=
+  (pf.state = .init → Run isLWSch b o i) ∧ (pf.state ≠ .init → Run isLWSch b o pf.v.offs)
+
+theorem nv_naLWS {h : Nat} {b : Buf} {o i : Nat} {pf : PFromBody} (_hoi : o ≤ i) (hI : NvInv b o i pf) {i' : Nat} {st' : PFromBody}
+    (hs : naLWS h b i pf = .cont i' st') : NvInv b o i' st' := by
+  unfold naLWS lwsStd at hs
+  rcases hsk : skipLWS b i 0 with ⟨n, crl, e⟩
+  rw [hsk] at hs
+  cases e <;> simp only at hs <;> cases hs
+  exact ⟨fun h0 => nr_run_append (hI.1 h0) (nr_skipLWS_run b i 0 hsk), hI.2⟩
+
+theorem nv_keep {b : Buf} {o i i' : Nat} {pf : PFromBody} (hni : pf.state ≠ .init) (hI : NvInv b o i pf) :
+    NvInv b o i' pf := ⟨fun h0 => absurd h0 hni, hI.2⟩
+
+theorem nv_set {b : Buf} {o i i' : Nat} {pf st' : PFromBody} (h1 : st'.state ≠ .init) (h2 : st'.v.offs = pf.v.offs)
+    (hni : pf.state ≠ .init) (hI : NvInv b o i pf) : NvInv b o i' st' :=
+  ⟨fun h0 => absurd h0 h1, fun _ => by rw [h2]; exact hI.2 hni⟩
+
+macro "nv_leaf" hI:ident hfit:ident : tactic =>
+  `(tactic| (refine ⟨fun h0 => ?_, fun h1 => ?_⟩
+             · first | (exfalso; simp_all; done) | (cases h0; done)
+             · simp only [PFromBody.setURI, PFromBody.setName, PFromBody.setV, PFromBody.extV, PFromBody.extParams,
+                 PFromBody.resetUPT, PField.set, PField.extend, (setFromParamVal_vp _ _).1] at *
+               first
+                 | exact ($hI).2 (by simp_all)
+                 | (rw [trunc16_of_lt $hfit]; exact ($hI).1 (by simp_all))))
+
+theorem nv_A (h : Nat) (hmv : multipleValsOk h = true) {b : Buf} {o i : Nat} {pf : PFromBody} (c : UInt8) (hoi : o ≤ i) (hfit : i < 65536)
+    (hI : NvInv b o i pf) {i' : Nat} {st' : PFromBody} (hs : naStepA h b i c pf = .cont i' st') : NvInv b o i' st' := by
+  unfold naStepA at hs
+  simp only [hmv, ↓reduceIte] at hs
+  repeat' split at hs
+  all_goals first
+    | exact nv_naLWS hoi hI hs
+    | exact absurd hs (naMoreValues_not_cont h b _ i)
+    | (cases hs; done)
+    | (refine nv_naLWS hoi ?_ hs; nv_leaf hI hfit)
+    | (cases hs; nv_leaf hI hfit)
+    | (cases hs; exact nv_keep (by simp_all) hI)
+
+theorem nv_Q (h : Nat) {b : Buf} {o i : Nat} {pf : PFromBody} (c : UInt8) (hoi : o ≤ i)
+    (hg : pf.state = .quoted ∨ pf.state = .quotedVal ∨ pf.state = .quotedPossibleVal)
+    (hI : NvInv b o i pf) {i' : Nat} {st' : PFromBody} (hs : naStepQ h b i c pf = .cont i' st') : NvInv b o i' st' := by
+  have hni : pf.state ≠ .init := by rcases hg with g | g | g <;> rw [g] <;> decide
+  have hfit : i < 65536 ∨ True := Or.inr trivial
+  unfold naStepQ at hs
+  repeat' split at hs
+  all_goals first
+    | exact nv_naLWS hoi hI hs
+    | (cases hs; done)
+    | (cases hs; exact nv_keep hni hI)
+    | (cases hs; exact nv_set (pf := pf) (by simp) rfl hni hI)
+
+theorem nv_U {b : Buf} {o i : Nat} {pf : PFromBody} (c : UInt8) (g : pf.state = .uri)
+    (hI : NvInv b o i pf) {i' : Nat} {st' : PFromBody} (hs : naStepU i c pf = .cont i' st') : NvInv b o i' st' := by
+  have hni : pf.state ≠ .init := by rw [g]; decide
+  unfold naStepU at hs
+  repeat' split at hs
+  all_goals first
+    | (cases hs; done)
+    | (cases hs; exact nv_keep hni hI)
+    | (cases hs; exact nv_set (pf := pf) (by simp) rfl hni hI)
+
+theorem nv_UF (h : Nat) {b : Buf} {o i : Nat} {pf : PFromBody} (c : UInt8) (hoi : o ≤ i) (g : pf.state = .uriFound)
+    (hI : NvInv b o i pf) {i' : Nat} {st' : PFromBody} (hs : naStepUF h b i c pf = .cont i' st') : NvInv b o i' st' := by
+  have hni : pf.state ≠ .init := by rw [g]; decide
+  unfold naStepUF at hs
+  repeat' split at hs
+  all_goals first
+    | exact nv_naLWS hoi hI hs
+    | exact absurd hs (naMoreValues_not_cont h b _ i)
+    | (cases hs; done)
+    | (cases hs; exact nv_keep hni hI)
+    | (cases hs; exact nv_set (pf := pf) (by simp) rfl hni hI)
+
+theorem nv_Star (h : Nat) {b : Buf} {o i : Nat} {pf : PFromBody} (c : UInt8) (hoi : o ≤ i)
+    (hI : NvInv b o i pf) {i' : Nat} {st' : PFromBody} (hs : naStepStar h b i c pf = .cont i' st') : NvInv b o i' st' := by
+  unfold naStepStar at hs
+  split at hs
+  · exact nv_naLWS hoi hI hs
+  · cases hs
+
+theorem nv_nameWS (pf : PFromBody) (i : Nat) (hni : pf.state ≠ .init) :
+    (naNameWS pf i).state ≠ .init ∧ (naNameWS pf i).v.offs = pf.v.offs := by
+  unfold naNameWS
+  repeat' split
+  all_goals first | exact ⟨hni, rfl⟩ | exact ⟨by simp, rfl⟩
+
+theorem nv_param (pf : PFromBody) (i : Nat) (hni : pf.state ≠ .init) :
+    (naParamsOffs (naParamStart pf i) i).state ≠ .init ∧ (naParamsOffs (naParamStart pf i) i).v.offs = pf.v.offs := by
+  unfold naParamsOffs naParamStart
+  repeat' split
+  all_goals first | exact ⟨hni, rfl⟩ | exact ⟨by simp, rfl⟩
+
+theorem nv_valWS (pf : PFromBody) (i n : Nat) (ok : Bool) (hni : pf.state ≠ .init) :
+    (naValWS pf i n ok).state ≠ .init ∧ (naValWS pf i n ok).v.offs = pf.v.offs := by
+  unfold naValWS
+  repeat' split
+  all_goals first | exact ⟨hni, rfl⟩ | exact ⟨by simp, rfl⟩
+
+theorem nv_sfp (b : Buf) (pf x : PFromBody) (h1 : x.state ≠ .init) (h2 : x.v = pf.v) :
+    (setFromParamVal b x).state ≠ .init ∧ (setFromParamVal b x).v.offs = pf.v.offs := by
+  rw [setFromParamVal_state, (setFromParamVal_vp b x).1, h2]
+  exact ⟨h1, rfl⟩
+
+/-- closes a continuing leaf of the parameter states -/
+macro "nv_pleaf" hs:ident pf:ident hni:ident hI:ident : tactic =>
+  `(tactic| first
+      | (cases $hs:ident; done)
+      | (cases $hs:ident; exact nv_keep $hni $hI)
+      | (cases $hs:ident
+         refine nv_set (pf := $pf) ?_ ?_ $hni $hI
+         · first
+             | exact (nv_param _ _ $hni).1
+             | (rw [setFromParamVal_state]; intro hh; cases hh)
+             | (intro hh; cases hh)
+         · first
+             | exact (nv_param _ _ $hni).2
+             | (rw [(setFromParamVal_vp _ _).1])
+             | rfl))
+
+theorem nv_P (h : Nat) {b : Buf} {o i : Nat} {pf : PFromBody} (c : UInt8)
+    (hg : pf.state = .newParam ∨ pf.state = .newPossibleParam ∨ pf.state = .paramName ∨ pf.state = .possibleParamName)
+    (hI : NvInv b o i pf) {i' : Nat} {st' : PFromBody} (hs : naStepP h b i c pf = .cont i' st') : NvInv b o i' st' := by
+  have hni : pf.state ≠ .init := by rcases hg with g | g | g | g <;> rw [g] <;> decide
+  unfold naStepP at hs
+  split at hs
+  · rcases hsk : skipLWS b i 0 with ⟨n, crl, e⟩
+    rw [hsk] at hs
+    cases e <;> simp only at hs <;> cases hs
+    exact nv_set (pf := pf) (nv_nameWS pf i hni).1 (nv_nameWS pf i hni).2 hni hI
+  · repeat' split at hs
+    all_goals first
+      | exact absurd hs (naMoreValues_not_cont h b _ i)
+      | nv_pleaf hs pf hni hI
+
+theorem nv_PE (h : Nat) {b : Buf} {o i : Nat} {pf : PFromBody} (c : UInt8)
+    (hg : pf.state = .paramNameEnd ∨ pf.state = .possibleParamNameEnd)
+    (hI : NvInv b o i pf) {i' : Nat} {st' : PFromBody} (hs : naStepPE h b i c pf = .cont i' st') : NvInv b o i' st' := by
+  have hni : pf.state ≠ .init := by rcases hg with g | g <;> rw [g] <;> decide
+  unfold naStepPE at hs
+  repeat' split at hs
+  all_goals first
+    | exact absurd hs (naCommaAfterWS_not_cont h b _ i _)
+    | nv_pleaf hs pf hni hI
+
+theorem nv_V (h : Nat) {b : Buf} {o i : Nat} {pf : PFromBody} (c : UInt8)
+    (hg : pf.state = .newParamVal ∨ pf.state = .newPossibleVal ∨ pf.state = .paramVal ∨ pf.state = .possibleVal)
+    (hI : NvInv b o i pf) {i' : Nat} {st' : PFromBody} (hs : naStepV h b i c pf = .cont i' st') : NvInv b o i' st' := by
+  have hni : pf.state ≠ .init := by rcases hg with g | g | g | g <;> rw [g] <;> decide
+  unfold naStepV at hs
+  split at hs
+  · rcases hsk : skipLWS b i 0 with ⟨n, crl, e⟩
+    rw [hsk] at hs
+    cases e <;> simp only at hs <;> cases hs
+    exact nv_set (pf := pf) (nv_valWS pf i _ true hni).1 (nv_valWS pf i _ true hni).2 hni hI
+  · repeat' split at hs
+    all_goals first
+      | exact absurd hs (naMoreValues_not_cont h b _ i)
+      | nv_pleaf hs pf hni hI
+
+theorem nv_VE (h : Nat) {b : Buf} {o i : Nat} {pf : PFromBody} (c : UInt8)
+    (hg : pf.state = .paramValEnd ∨ pf.state = .possibleValEnd)
+    (hI : NvInv b o i pf) {i' : Nat} {st' : PFromBody} (hs : naStepVE h b i c pf = .cont i' st') : NvInv b o i' st' := by
+  have hni : pf.state ≠ .init := by rcases hg with g | g <;> rw [g] <;> decide
+  unfold naStepVE at hs
+  repeat' split at hs
+  all_goals first
+    | exact absurd hs (naCommaAfterWS_not_cont h b _ i _)
+    | nv_pleaf hs pf hni hI
+
+theorem nv_cont (h : Nat) (hmv : multipleValsOk h = true) {b : Buf} {o i : Nat} {pf : PFromBody} (c : UInt8) (hoi : o ≤ i)
+    (hfit : i < 65536) (hI : NvInv b o i pf) {i' : Nat} {st' : PFromBody} (hs : naStep h b i c pf = .cont i' st') :
+    NvInv b o i' st' := by
+  unfold naStep at hs
+  split at hs
+  all_goals first
+    | exact nv_A h hmv c hoi hfit hI hs
+    | exact nv_Q h c hoi (by simp [*]) hI hs
+    | exact nv_U c (by assumption) hI hs
+    | exact nv_UF h c hoi (by assumption) hI hs
+    | exact nv_P h c (by simp [*]) hI hs
+    | exact nv_PE h c (by simp [*]) hI hs
+    | exact nv_V h c (by simp [*]) hI hs
+    | exact nv_VE h c (by simp [*]) hI hs
+    | exact nv_Star h c hoi hI hs
+    | (cases hs; refine nv_keep ?_ hI; intro hh; simp_all)
+
+/-! #### exits -/
+
+def NvDone (b : Buf) (o : Nat) (e : Err) (st' : PFromBody) : Prop :=
+  (e = .ok ∨ e = .moreValues) → Run isLWSch b o st'.v.offs
+
+theorem nv_d_err {b : Buf} {o : Nat} {e : Err} {st' : PFromBody} (h1 : e ≠ .ok) (h2 : e ≠ .moreValues) : NvDone b o e st' := by
+  intro hh; rcases hh with hh | hh
+  · exact absurd hh h1
+  · exact absurd hh h2
+
+theorem nv_eohPN (b : Buf) (pf : PFromBody) (i : Nat) : (naEOHParamName b pf i).v.offs = pf.v.offs := by
+  unfold naEOHParamName
+  simp only [PFromBody.extV, PField.extend, PFromBody.extParams]
+  repeat' split
+  all_goals first | rfl | (rw [(setFromParamVal_vp _ _).1])
+
+theorem nv_eohV (b : Buf) (pf : PFromBody) (i : Nat) : (naEOHVal b pf i).v.offs = pf.v.offs := by
+  unfold naEOHVal
+  simp only [PFromBody.extV, PField.extend, PFromBody.extParams]
+  rw [(setFromParamVal_vp _ _).1]
+
+theorem nv_eoh (h : Nat) (b : Buf) (pf : PFromBody) (e n crl : Nat) (r : Err)
+    (hc : (naEOH h b pf e n crl r).2.1 = .ok ∨ (naEOH h b pf e n crl r).2.1 = .moreValues) :
+    pf.state ≠ .init ∧ (naEOH h b pf e n crl r).2.2.v.offs = pf.v.offs := by
+  unfold naEOH naFinish at hc ⊢
+  cases hst : pf.state <;> simp only [hst] at hc ⊢
+  all_goals first
+    | (exfalso; (rcases hc with hc | hc <;> cases hc); done)
+    | (refine ⟨by decide, ?_⟩
+       first
+         | trivial
+         | rfl
+         | exact nv_eohPN b pf e
+         | exact nv_eohV b _ e
+         | (simp only [PFromBody.extV, PField.extend, PFromBody.extParams, PFromBody.setURI]
+            first | rfl | rw [(setFromParamVal_vp _ _).1]))
+
+theorem nv_d_eoh (h : Nat) {b : Buf} {o i : Nat} (pf : PFromBody) (e n crl : Nat) (r : Err) (hI : NvInv b o i pf) :
+    NvDone b o (naEOH h b pf e n crl r).2.1 (naEOH h b pf e n crl r).2.2 := by
+  intro hc
+  obtain ⟨h1, h2⟩ := nv_eoh h b pf e n crl r hc
+  rw [h2]; exact hI.2 h1
+
+theorem nv_d_lws (h : Nat) {b : Buf} {o i : Nat} {pf : PFromBody} (hI : NvInv b o i pf)
+    {o' : Nat} {e : Err} {st' : PFromBody} (hs : naLWS h b i pf = .done o' e st') : NvDone b o e st' := by
+  unfold naLWS lwsStd at hs
+  rcases hsk : skipLWS b i 0 with ⟨n, crl, e1⟩
+  rw [hsk] at hs
+  rcases skipLWS_verdicts b i 0 hsk with rfl | rfl | rfl | rfl <;> simp only at hs
+  · cases hs
+  · simp only [Step.done.injEq] at hs
+    obtain ⟨rfl, rfl, rfl⟩ := hs
+    exact nv_d_eoh h pf i n crl .ok hI
+  · cases hs; exact nv_d_err (by decide) (by decide)
+  · cases hs; exact nv_d_err (by decide) (by decide)
+
+theorem nv_d_mv (h : Nat) {b : Buf} {o i : Nat} {pf : PFromBody} (hI : NvInv b o i pf)
+    {o' : Nat} {e : Err} {st' : PFromBody} (hs : naMoreValues h b pf i = .done o' e st') : NvDone b o e st' := by
+  unfold naMoreValues at hs
+  simp only [Step.done.injEq] at hs
+  obtain ⟨rfl, rfl, rfl⟩ := hs
+  exact nv_d_eoh h pf i i 1 .moreValues hI
+
+theorem nv_d_cws (h : Nat) {b : Buf} {o i : Nat} {pf : PFromBody} (x : Nat) (hI : NvInv b o i pf)
+    {o' : Nat} {e : Err} {st' : PFromBody} (hs : naCommaAfterWS h b pf i x = .done o' e st') : NvDone b o e st' := by
+  unfold naCommaAfterWS at hs
+  split at hs
+  · simp only [Step.done.injEq] at hs
+    obtain ⟨rfl, rfl, rfl⟩ := hs
+    exact nv_d_eoh h pf x i 1 .moreValues hI
+  · cases hs; exact nv_d_err (by decide) (by decide)
+
+theorem nv_d_A (h : Nat) {b : Buf} {o i : Nat} {pf : PFromBody} (c : UInt8) (hfit : i < 65536) (hI : NvInv b o i pf)
+    {o' : Nat} {e : Err} {st' : PFromBody} (hs : naStepA h b i c pf = .done o' e st') : NvDone b o e st' := by
+  unfold naStepA at hs
+  repeat' (split at hs)
+  all_goals first
+    | exact nv_d_lws h hI hs
+    | (refine nv_d_lws h ?_ hs; nv_leaf hI hfit)
+    | exact nv_d_mv h hI hs
+    | (cases hs <;> exact nv_d_err (by decide) (by decide))
+
+theorem nv_d_Q (h : Nat) {b : Buf} {o i : Nat} {pf : PFromBody} (c : UInt8) (hI : NvInv b o i pf)
+    {o' : Nat} {e : Err} {st' : PFromBody} (hs : naStepQ h b i c pf = .done o' e st') : NvDone b o e st' := by
+  unfold naStepQ at hs
+  repeat' (split at hs)
+  all_goals first
+    | exact nv_d_lws h hI hs
+    | (cases hs <;> exact nv_d_err (by decide) (by decide))
+
+theorem nv_d_U {b : Buf} {o i : Nat} {pf : PFromBody} (c : UInt8)
+    {o' : Nat} {e : Err} {st' : PFromBody} (hs : naStepU i c pf = .done o' e st') : NvDone b o e st' := by
+  unfold naStepU at hs
+  repeat' (split at hs)
+  all_goals (cases hs <;> exact nv_d_err (by decide) (by decide))
+
+theorem nv_d_UF (h : Nat) {b : Buf} {o i : Nat} {pf : PFromBody} (c : UInt8) (hI : NvInv b o i pf)
+    {o' : Nat} {e : Err} {st' : PFromBody} (hs : naStepUF h b i c pf = .done o' e st') : NvDone b o e st' := by
+  unfold naStepUF at hs
+  repeat' (split at hs)
+  all_goals first
+    | exact nv_d_lws h hI hs
+    | exact nv_d_mv h hI hs
+    | (cases hs <;> exact nv_d_err (by decide) (by decide))
+
+theorem nv_d_Star (h : Nat) {b : Buf} {o i : Nat} {pf : PFromBody} (c : UInt8) (hI : NvInv b o i pf)
+    {o' : Nat} {e : Err} {st' : PFromBody} (hs : naStepStar h b i c pf = .done o' e st') : NvDone b o e st' := by
+  unfold naStepStar at hs
+  split at hs
+  · exact nv_d_lws h hI hs
+  · cases hs; exact nv_d_err (by decide) (by decide)
+
+theorem nv_d_P (h : Nat) {b : Buf} {o i : Nat} {pf : PFromBody} (c : UInt8)
+    (hg : pf.state = .newParam ∨ pf.state = .newPossibleParam ∨ pf.state = .paramName ∨ pf.state = .possibleParamName)
+    (hI : NvInv b o i pf)
+    {o' : Nat} {e : Err} {st' : PFromBody} (hs : naStepP h b i c pf = .done o' e st') : NvDone b o e st' := by
+  have hni : pf.state ≠ .init := by rcases hg with g | g | g | g <;> rw [g] <;> decide
+  unfold naStepP at hs
+  split at hs
+  · rcases hsk : skipLWS b i 0 with ⟨n, crl, e1⟩
+    rw [hsk] at hs
+    have hX : NvInv b o i (naNameWS pf i) := nv_set (pf := pf) (nv_nameWS pf i hni).1 (nv_nameWS pf i hni).2 hni hI
+    rcases skipLWS_verdicts b i 0 hsk with rfl | rfl | rfl | rfl <;> simp only at hs
+    · cases hs
+    · simp only [Step.done.injEq] at hs
+      obtain ⟨rfl, rfl, rfl⟩ := hs
+      exact nv_d_eoh h _ i n crl .ok hX
+    · cases hs; exact nv_d_err (by decide) (by decide)
+    · cases hs; exact nv_d_err (by decide) (by decide)
+  · repeat' (split at hs)
+    all_goals first
+      | exact nv_d_mv h hI hs
+      | (cases hs <;> exact nv_d_err (by decide) (by decide))
+
+theorem nv_d_V (h : Nat) {b : Buf} {o i : Nat} {pf : PFromBody} (c : UInt8)
+    (hg : pf.state = .newParamVal ∨ pf.state = .newPossibleVal ∨ pf.state = .paramVal ∨ pf.state = .possibleVal)
+    (hI : NvInv b o i pf)
+    {o' : Nat} {e : Err} {st' : PFromBody} (hs : naStepV h b i c pf = .done o' e st') : NvDone b o e st' := by
+  have hni : pf.state ≠ .init := by rcases hg with g | g | g | g <;> rw [g] <;> decide
+  unfold naStepV at hs
+  split at hs
+  · rcases hsk : skipLWS b i 0 with ⟨n, crl, e1⟩
+    rw [hsk] at hs
+    have hX : NvInv b o i (naValWS pf i n false) :=
+      nv_set (pf := pf) (nv_valWS pf i n false hni).1 (nv_valWS pf i n false hni).2 hni hI
+    rcases skipLWS_verdicts b i 0 hsk with rfl | rfl | rfl | rfl <;> simp only at hs
+    · cases hs
+    · simp only [Step.done.injEq] at hs
+      obtain ⟨rfl, rfl, rfl⟩ := hs
+      exact nv_d_eoh h _ i n crl .ok hX
+    · cases hs; exact nv_d_err (by decide) (by decide)
+    · cases hs; exact nv_d_err (by decide) (by decide)
+  · repeat' (split at hs)
+    all_goals first
+      | exact nv_d_mv h hI hs
+      | (cases hs <;> exact nv_d_err (by decide) (by decide))
+
+theorem nv_d_PE (h : Nat) {b : Buf} {o i : Nat} {pf : PFromBody} (c : UInt8) (hI : NvInv b o i pf)
+    {o' : Nat} {e : Err} {st' : PFromBody} (hs : naStepPE h b i c pf = .done o' e st') : NvDone b o e st' := by
+  unfold naStepPE at hs
+  repeat' (split at hs)
+  all_goals first
+    | exact nv_d_cws h _ hI hs
+    | (cases hs <;> exact nv_d_err (by decide) (by decide))
+
+theorem nv_d_VE (h : Nat) {b : Buf} {o i : Nat} {pf : PFromBody} (c : UInt8) (hI : NvInv b o i pf)
+    {o' : Nat} {e : Err} {st' : PFromBody} (hs : naStepVE h b i c pf = .done o' e st') : NvDone b o e st' := by
+  unfold naStepVE at hs
+  repeat' (split at hs)
+  all_goals first
+    | exact nv_d_cws h _ hI hs
+    | (cases hs <;> exact nv_d_err (by decide) (by decide))
+
+theorem nv_done (h : Nat) {b : Buf} {o i : Nat} {pf : PFromBody} (c : UInt8) (hfit : i < 65536) (hI : NvInv b o i pf)
+    {o' : Nat} {e : Err} {st' : PFromBody} (hs : naStep h b i c pf = .done o' e st') : NvDone b o e st' := by
+  unfold naStep at hs
+  split at hs
+  all_goals first
+    | exact nv_d_A h c hfit hI hs
+    | exact nv_d_Q h c hI hs
+    | exact nv_d_U c hs
+    | exact nv_d_UF h c hI hs
+    | exact nv_d_P h c (by simp [*]) hI hs
+    | exact nv_d_PE h c hI hs
+    | exact nv_d_V h c (by simp [*]) hI hs
+    | exact nv_d_VE h c hI hs
+    | exact nv_d_Star h c hI hs
+    | cases hs
+
+/-- **the reported value starts at the first byte of the piece that is not white space / a line-end byte** (header
+    kinds with several values; buffers within the 65,535-byte limit) -/
+theorem ns_value_lead (h : Nat) (hmv : multipleValsOk h = true) (b : Buf) (o : Nat) (hfit : b.size ≤ 65535)
+    {o' : Nat} {e : Err} {pf' : PFromBody} (hp : parseNameAddrPVal h b o {} = (o', e, pf'))
+    (hc : e = .ok ∨ e = .moreValues) : Run isLWSch b o pf'.v.offs := by
+  unfold parseNameAddrPVal at hp
+  rw [if_neg (by decide)] at hp
+  simp only [Prod.mk.injEq] at hp
+  obtain ⟨rfl, rfl, rfl⟩ := hp
+  have h0 : NvInv b o o { ({} : PFromBody) with s := ({} : PFromBody).soffs, soffs := 0 } :=
+    ⟨fun _ => nr_run_empty _ _ _, fun hh => absurd rfl hh⟩
+  have key := runLoop_inv (naMachine h) b (fun i st => o ≤ i ∧ NvInv b o i st)
+    (fun r => NvDone b o r.2.1 r.2.2)
+    (by
+      intro i c st i' st' hb hP hs
+      have hlt := get?_lt hb
+      refine ⟨fun hlt' => ⟨by omega, nv_cont h hmv c hP.1 (by omega) hP.2 hs⟩, fun _ => ?_⟩
+      exact nv_d_err (e := Err.lbug) (by decide) (by decide))
+    (by
+      intro i c st o1 e1 st1 hb hP hs
+      have hlt := get?_lt hb
+      exact nv_done h c (by omega) hP.2 hs)
+    (by
+      intro i st _ _
+      exact nv_d_err (e := Err.moreBytes) (by decide) (by decide))
+    o _ ⟨Nat.le_refl _, h0⟩
+  rcases hrl : runLoop (naMachine h) b o { ({} : PFromBody) with s := ({} : PFromBody).soffs, soffs := 0 } with ⟨o1, e1, p1⟩
+  rw [hrl] at key hc
+  simp only at key hc ⊢
+  have hv : (naExit ({} : PFromBody).soffs e1 p1).v = p1.v := by unfold naExit; split <;> rfl
+  rw [hv]
+  exact key hc
+
+
+/-- the same for every piece of a list -/
+theorem NsSegs.leads {h : Nat} {b : Buf} {o o' : Nat} {L : List (Nat × PFromBody)} (H : NsSegs h b o L o')
+    (hmv : multipleValsOk h = true) (hfit : b.size ≤ 65535) : ∀ x ∈ L, Run isLWSch b x.1 x.2.v.offs := by
+  induction H with
+  | last o o' r hp _ _ =>
+    intro x hx
+    simp only [List.mem_singleton] at hx
+    rw [hx]; exact ns_value_lead h hmv b o hfit hp (Or.inl rfl)
+  | cons o j o' r rest hp _ _ _ _ ih =>
+    intro x hx
+    rcases List.mem_cons.1 hx with hx | hx
+    · rw [hx]; exact ns_value_lead h hmv b o hfit hp (Or.inr rfl)
+    · exact ih x hx
+
 /-! ### I. one call on a new object: everything together -/
 
 /-- **(2) ParseAllContactValues on a new object of ANY capacity `cap`, converse direction.**  If the call answers OK
@@ -1155,7 +1633,8 @@ theorem NsSegs.vspans {h : Nat} {b : Buf} {o o' : Nat} {L : List (Nat × PFromBo
     * `NsSegs`: the pieces tile the text from `o`: each but the last is closed by the FIRST top-level comma after its
       start (the next piece starts right after it), the last has no top-level comma and is closed by the line end of the
       header, `o'` being the offset after it; the value of a piece is what the value parser reports at its start;
-    * `NsVSpans`: each reported `V` lies inside its piece, before the closing comma;
+    * `NsVSpans`: each reported `V` lies inside its piece, before the closing comma; it starts at the first byte of
+      the piece that is not white space / a line-end byte;
     * `N` = number of pieces = 1 + number of top-level commas of the text `[o, o')` — also beyond the capacity;
     * the stored values are the values of the first `cap` pieces, in order;
     * max / min expires summarise ALL pieces. -/
@@ -1163,13 +1642,14 @@ theorem parseAllContactValues_new_converse (b : Buf) (o cap : Nat) (hfit : b.siz
     {o' : Nat} {c' : PContacts}
     (hp : parseAllContactValues b o { vals := Array.replicate cap {} } = (o', .ok, c')) :
     ∃ L : List (Nat × PFromBody), NsSegs HdrContact b o L o' ∧ NsVSpans b L o' ∧
+      (∀ x ∈ L, Run isLWSch b x.1 x.2.v.offs) ∧
       c'.n = L.length ∧ c'.n = nsCommaCount b o o' + 1 ∧
       (∀ i (hi : i < L.length), i < cap → c'.vals[i]! = L[i].2) ∧
       c'.maxExpires = L.foldl (fun m x => max m x.2.expires) 0 ∧
       c'.minExpires = L.foldl (fun m x => min m x.2.expires) 4294967295 := by
   have hnew := ct_new_ok cap
   obtain ⟨L, hL, rfl⟩ := parseAllContactValues_segs b o _ hnew.1 hnew.2 hp
-  refine ⟨L, hL, hL.vspans hfit ho, ?_, ?_, ?_, ?_, ?_⟩
+  refine ⟨L, hL, hL.vspans hfit ho, hL.leads ns_mv_contact hfit, ?_, ?_, ?_, ?_, ?_⟩
   · rw [ctAcceptAll_n, List.length_map]; exact Nat.zero_add _
   · rw [ctAcceptAll_n, List.length_map, hL.count.2]; exact Nat.zero_add _
   · intro i hi hcap
@@ -1184,10 +1664,11 @@ theorem parseAllContactValues_new_converse (b : Buf) (o cap : Nat) (hfit : b.siz
 /-- **(2) ParseAllPAIValues on a new object, converse direction** (two slots; `N` counts all pieces) -/
 theorem parseAllPAIValues_new_converse (b : Buf) (o : Nat) (hfit : b.size ≤ 65535) (ho : o ≤ b.size)
     {o' : Nat} {c' : PPAIs} (hp : parseAllPAIValues b o {} = (o', .ok, c')) :
-    ∃ L : List (Nat × PFromBody), NsSegs HdrPAI b o L o' ∧ NsVSpans b L o' ∧ (∀ x ∈ L, x.2.star = false) ∧
+    ∃ L : List (Nat × PFromBody), NsSegs HdrPAI b o L o' ∧ NsVSpans b L o' ∧
+      (∀ x ∈ L, Run isLWSch b x.1 x.2.v.offs) ∧ (∀ x ∈ L, x.2.star = false) ∧
       c' = ({} : PPAIs).acceptAll (L.map Prod.snd) ∧ c'.n = L.length ∧ c'.n = nsCommaCount b o o' + 1 := by
   obtain ⟨L, hL, rfl, hs⟩ := parseAllPAIValues_segs b o _ pa_new_ok.1 pa_new_ok.2 hp
-  refine ⟨L, hL, hL.vspans hfit ho, hs, rfl, ?_, ?_⟩
+  refine ⟨L, hL, hL.vspans hfit ho, hL.leads ns_mv_pai hfit, hs, rfl, ?_, ?_⟩
   · rw [paAcceptAll_n, List.length_map]; exact Nat.zero_add _
   · rw [paAcceptAll_n, List.length_map, hL.count.2]; exact Nat.zero_add _
 
@@ -1250,6 +1731,17 @@ example : (parseNameAddrPVal HdrContact "*,\r\nX".toUTF8.data 0 {}).1 = 1 ∧
 example : (parseNameAddrPVal HdrFrom "<a>,<b>\r\nX".toUTF8.data 0 {}).2.1 = .ok := by decide +kernel
 example : multipleValsOk HdrFrom = false ∧ multipleValsOk HdrTo = false := by decide
 
+/-- test (evaluation): why `ns_value_lead` is stated for kinds with several values only — From skips a leading comma -/
+example : (parseNameAddrPVal HdrFrom ",<a>\r\nX".toUTF8.data 0 {}).2.1 = .ok ∧
+    (parseNameAddrPVal HdrFrom ",<a>\r\nX".toUTF8.data 0 {}).2.2.v = ⟨1, 3⟩ := by decide +kernel
+
+/-- tests (evaluation): `V` is not always trimmed at its end (bytes after `>` are not part of it; white space after
+    `;name=` is) -/
+example : (parseNameAddrPVal HdrContact "<a> jk ,c\r\nX".toUTF8.data 0 {}).1 = 8 ∧
+    (parseNameAddrPVal HdrContact "<a> jk ,c\r\nX".toUTF8.data 0 {}).2.2.v = ⟨0, 3⟩ ∧
+    (parseNameAddrPVal HdrContact "a:b;x= ,c\r\nX".toUTF8.data 0 {}).1 = 8 ∧
+    (parseNameAddrPVal HdrContact "a:b;x= ,c\r\nX".toUTF8.data 0 {}).2.2.v = ⟨0, 7⟩ := by decide +kernel
+
 /-- test buffer for the list level: three pieces; commas inside the quoted name, inside `<` … `>` and inside a quoted
     parameter value do not split; the second piece shows bytes (with an unbalanced quote) after `>` -/
 def nsExL : Buf := "\"a,b\" <sip:x,y>;p=\"1,2\" , <sip:y> junk\"u , v\r\nX".toUTF8.data
@@ -1266,7 +1758,7 @@ example : ∃ L : List (Nat × PFromBody), NsSegs HdrContact nsExL 0 L 46 ∧ Ns
       (46, .ok, (parseAllContactValues nsExL 0 { vals := Array.replicate 1 {} }).2.2) := by
     have := nsExL_parse
     exact Prod.ext this.1 (Prod.ext this.2.1 rfl)
-  obtain ⟨L, h1, h2, h3, _⟩ := parseAllContactValues_new_converse nsExL 0 1 (by decide) (by decide) hp
+  obtain ⟨L, h1, h2, _, h3, _⟩ := parseAllContactValues_new_converse nsExL 0 1 (by decide) (by decide) hp
   exact ⟨L, h1, h2, by rw [← h3]; exact nsExL_parse.2.2.1⟩
 
 end Sipsp
